@@ -37,5 +37,14 @@ def run():
                    "in place by the caller between two calls is a new text, the unchanged list is the same text; the "
                    "list is never modified while a parse() call is running; lines carry no line terminators, tokens "
                    "are separated by blanks or line ends",
+                   "description objects shared between parsers: the grammar of a parser is what the constructor's "
+                   "arguments describe for THAT parser - an AnyTokenExcept(ex) alternative stands for one alternative "
+                   "(t,) per token kind t of the parser's own tokenizer (its named groups, the skipped SPACE kind "
+                   "included, as the docstring says 'each token'), t not in ex - independently of the parsers "
+                   "constructed before or after from the same AnyTokenExcept / productions dict objects; explored: "
+                   "AnyTokenExcept instances and the productions dict with its lists (ex names only token kinds every "
+                   "tokenizer of the session knows: an unknown one is a documented GrammarError; ProdsTemplate objects "
+                   "refuse a second use by design and are not shared; AnyTokenExcept inside ProdSequence, shared "
+                   "synonyms / keywords dicts are not explored); a constructor failure stays a diagnostic",
                    "bounded: grammar families and string length as in the rule; each parse under a budget of "
                    "%d parse-loop events / %.0f s" % (driver.STEP_BUDGET, driver.WALL_BUDGET)], t0)
